@@ -11,7 +11,7 @@ func init() {
 	register(&propDef{
 		id: "C31", title: "Grain activations are ordered and single-threaded",
 		technique: "who-may-call + CFG ordering (OnActivate success ≺ activated flag; drop when inactive), call-graph confinement of OnDeactivate to the grain's own turn, guard dominance for once-only deactivation",
-		explanation: "Decides: (1) Grain.OnActivate is invoked only in grainPID.activate; the activated flag is set only after OnActivate returned without error; receive drops messages while the grain is not active, so no OnReceive precedes activation; (2) Grain.OnReceive is invoked only on the grain's turn (C01); (3) Grain.OnDeactivate is invoked only in grainPID.deactivate; deactivate is reached either on the grain's own turn (poison pill, passivation pill) or is reported: every entry point that reaches it off-turn is a way OnDeactivate can overlap an OnReceive of the same activation; (4) once: the pill handlers test isActive before deactivating, and deactivate clears the activated flag in its deferred tail on every exit; (5) fresh instance afterwards: the slow path re-activates an existing process that is no longer active.",
+		explanation: "Decides: (1) Grain.OnActivate is invoked only in grainPID.activate; the activated flag is set only after OnActivate returned without error; receive drops messages while the grain is not active, so no OnReceive precedes activation; (2) Grain.OnReceive is invoked only on the grain's turn (C01); (3) Grain.OnDeactivate is invoked only in grainPID.deactivate; deactivate is reached either on the grain's own turn (poison pill, passivation pill) or is reported: every entry point that reaches it off-turn is a way OnDeactivate can overlap an OnReceive of the same activation; (4) once: the pill handlers test isActive before deactivating, and deactivate clears the activated flag in its deferred tail on every exit; (5) fresh instance afterwards: the slow path re-activates an existing process that is no longer active. Added after seed C31a: the activated/onPoisonPill fences are lowered only after OnDeactivate returned.",
 		assumptions: []string{"overlap freedom on the paths listed as known findings", "the grain registry interplay across nodes (C30)"},
 		minObl:     16,
 		run:        runC31,
